@@ -26,13 +26,13 @@ var pointNo = map[string]int{"boot.capture": 1, "boot.send": 2, "loop.top": 3, "
 // recStore wraps a bucket: injects Store failures and records every Store call into the trace
 type recStore struct {
 	simpleblob.Interface
-	mu      sync.Mutex
+	mu       sync.Mutex
 	txnClock uint64 // the clock value set at the last send.begin / boot.send yield: the dump transaction starts after it
-	late    []string
-	fail    int
-	trace   *[]string
-	stores  []storeRec
-	onStore func()
+	late     []string
+	fail     int
+	trace    *[]string
+	stores   []storeRec
+	onStore  func()
 }
 type storeRec struct {
 	OK   bool
@@ -70,13 +70,13 @@ func (s *recStore) Store(ctx context.Context, name string, data []byte) error {
 }
 
 type appWrite struct {
-	DBI   string
-	Key   string
-	Val   []byte
-	Del   bool
-	Clock uint64
-	Point string
-	Yield int
+	DBI         string
+	Key         string
+	Val         []byte
+	Del         bool
+	Clock       uint64
+	Point       string
+	Yield       int
 	Visible     bool // leaves a difference between the application DBI and the live shadow content (always true in native mode)
 	OwnTxnEmpty bool // the write happened right after one of Lightning Stream's own transactions that recorded nothing
 }
@@ -194,7 +194,7 @@ func oneLoopRun(r *Rng, out *AreaOut, idx int) (string, string, bool, error) {
 	cancelFlag := false
 	nApp, nInj := 0, 0
 	pendingCause := true // application commits not yet covered by a dump; the start-up counts as a cause
-	sendCause := false    // cause of the SendOnce in progress
+	sendCause := false   // cause of the SendOnce in progress
 	var exitErr error
 	exited := false
 	var echo []string
@@ -356,10 +356,16 @@ func oneLoopRun(r *Rng, out *AreaOut, idx int) (string, string, bool, error) {
 								}
 							}
 						}
-						sn := buildSnapshot(fmtv, 1, "b", clock-10, sds)
+						uts := clock - 10
+						if nInj > 0 && r.Chance(25) {
+							// an OLDER snapshot of the peer is delivered after a newer one (its newest was corrupt or cleaned,
+							// or the listing was inconsistent): it is merged like any other
+							uts = clock0 + 7*uint64(nInj)
+						}
+						sn := buildSnapshot(fmtv, 1, "b", uts, sds)
 						seenD, _ := decodeSnapDBIs(sn)
-						updCh <- snapshot.Update{Snapshot: sn, NameInfo: snapshot.NameInfo{Kind: snapshot.KindSnapshot, InstanceID: "b", SyncerName: dbName, Timestamp: time.Unix(0, int64(clock-10))}}
-						a = append(a, fmt.Sprintf("AInject (mkUpd %s %d (mkSnap %d 1 %s))", cBytes([]byte("b")), clock-10, fmtv, cSnapDBIs(seenD)))
+						updCh <- snapshot.Update{Snapshot: sn, NameInfo: snapshot.NameInfo{Kind: snapshot.KindSnapshot, InstanceID: "b", SyncerName: dbName, Timestamp: time.Unix(0, int64(uts))}}
+						a = append(a, fmt.Sprintf("AInject (mkUpd %s %d (mkSnap %d 1 %s))", cBytes([]byte("b")), uts, fmtv, cSnapDBIs(seenD)))
 						nInj++
 					}
 					if p == "send.before_store" && r.Chance(12) {
@@ -382,6 +388,11 @@ func oneLoopRun(r *Rng, out *AreaOut, idx int) (string, string, bool, error) {
 			if p == "loop.sleep" && (yi > K || cancelFlag) {
 				cancel()
 			}
+			// LastTxnID as the loop will find it when it continues (application commits made at THIS yield included):
+			// an own transaction that leaves it unchanged until the next *.after_txn yield recorded nothing
+			if i2, err := env.Info(); err == nil {
+				prevLast = i2.LastTxnID
+			}
 			contCh <- struct{}{}
 		case exitErr = <-done:
 			exited = true
@@ -401,7 +412,7 @@ func oneLoopRun(r *Rng, out *AreaOut, idx int) (string, string, bool, error) {
 	if err != nil {
 		return "", "", false, err
 	}
-	cfg := fmt.Sprintf("(mkICfg %s true false %s false)", cBool(native), cBool(recvOnly))
+	cfg := fmt.Sprintf("(mkICfg %s true false %s false [])", cBool(native), cBool(recvOnly))
 	// what the cleaner was told (SetCommitted) and what the loop recorded as merged, for the peer instance
 	commB := uint64(0)
 	if t := sy.VerifCleaner().GetCommitted("b"); !t.IsZero() {
